@@ -203,7 +203,7 @@ theorem build_array_agrees (items : List Bytes) (buf : Bytes)
     have hA : C.ARRAY_CONTAINER_TAG < 4294967296 := by decide
     have hw := or_lt_u32 C.ARRAY_CONTAINER_TAG items.length hA hn
     have hmod : items.length % 4294967296 = items.length := Nat.mod_eq_of_lt hn
-    simp only [Ctl.val_bind', Nat.zero_add, Rs.bitor_natCast, Rs.toBeBytes_u32_nat _ hw, Rs.enumerate, List.nil_append, hmod]
+    simp only [Ctl.val_bind', Nat.zero_add, Rs.bitor_natCast, Nat.or_comm items.length C.ARRAY_CONTAINER_TAG, Rs.toBeBytes_u32_nat _ hw, Rs.enumerate, List.nil_append, hmod]
     have hwl := partsOf_words_length items ws ds hp
     have hrun := patch_run (ρ := Bytes) buf.length (Tr.build_array.loop2 (buf.length : Int))
       (fun k b bf h hl => ba_loop2_step buf.length k b bf h hl) (beN 4 (C.ARRAY_CONTAINER_TAG ||| items.length)) 0
